@@ -14,9 +14,9 @@ MS(w) == ((w.h + 16) \div 32) % (2 * N)                 \* modSwitchFromTorus32(
 RECURSIVE SumMS(_, _, _)
 SumMS(s, lo, hi) == IF lo > hi THEN 0 ELSE IF lo = hi THEN MS(Wd(s[lo])) ELSE LET mid == (lo + hi) \div 2 IN SumMS(s, lo, mid) + SumMS(s, mid + 1, hi)
 P == (MS(R.b) - SumMS(R.as, 1, Len(R.as))) % (2 * N)
-\* ExtProdErrBound: once FFT rounding has pushed the accumulator off the gadget grid, every CMux step may add one truncation unit 2^(31 - l*Bgbit);
-\* n steps, in units of 2^-32 (mu is >= 2^28, the bound stays below 2^21 for the layouts used)
-Tol == (IF R.l * R.bg <= 31 THEN R.n * 2^(31 - R.l * R.bg) ELSE 0) + 64 * R.n + 256
+\* ExtProdErrBound: the decomposition floors at 2^-(l*Bgbit), so every CMux step whose key bit is set may lose up to 2^(32 - l*Bgbit) units (one-sided);
+\* n steps in the worst case (all key bits set), in units of 2^-32 (mu is >= 2^28, the bound stays below 2^22 for the layouts used)
+Tol == (IF R.l * R.bg <= 31 THEN R.n * 2^(32 - R.l * R.bg) ELSE 0) + 64 * R.n + 256
 RowFull == /\ WAbsLeq(WSub(R.ph, IF P < N THEN R.mu ELSE WNeg(R.mu)), WOfInt(Tol))
            /\ R.masknz = 0                               \* the accumulator stays trivial: the result does not depend on any key
 \* ---- full-size external product (C09): TGSW = noiseless encryption of sgn * X^j, so the phase of the product under the key is sgn * X^j * phase(c), i.e.
